@@ -74,6 +74,9 @@ func C13(e *core.Env) {
 	}
 	vals := sx.L(sx.L(sx.S("ex.a"), sx.S("va")), sx.L(sx.S("ex.b"), sx.S("7")))
 	check := func(position, s, profile string, names []string, msgs map[string]string, pname string) {
+		if tcFor(e).check("C13 "+position, profile) {
+			res.Count("whole-module-text=equal")
+		}
 		out, err := pkg.Validate(profile, c13Data, false, nil)
 		replay := map[string]any{"position": position, "string": s, "profile": profile, "data": c13Data}
 		if err != nil {
